@@ -214,10 +214,19 @@ OP(bn_sqr_basic) { W(bn_sqr_basic(R[0], B[0])); out_bn(R[0]); }
 OP(bn_sqr_comba) { W(bn_sqr_comba(R[0], B[0])); out_bn(R[0]); }
 OP(bn_sqr_karat) { W(bn_sqr_karat(R[0], B[0])); out_bn(R[0]); }
 OP(bn_lsh) { W(bn_lsh(R[0], B[0], 77)); out_bn(R[0]); }
-OP(bn_div_rem) { W(bn_div_rem(R[0], R[1], B[0], B[2])); out_bn(R[0]); out_bn(R[1]); }
-OP(bn_div) { W(bn_div(R[0], B[0], B[2])); out_bn(R[0]); }
-OP(bn_mod_basic) { W(bn_mod_basic(R[0], B[0], B[2])); out_bn(R[0]); }
-OP(bn_mod_barrt) { W(bn_mod_pre_barrt(R[1], B[2]); bn_mod_barrt(R[0], B[0], B[2], R[1])); out_bn(R[0]); }
+/* divisor / modulus of a seeded shorter length (all B[i] of a class have the same length, which would make
+ * every quotient trivial): R[3] = B[2] shifted right by a seeded share of its length, kept odd and >= 3 */
+static void short_modulus_of(int shares) {
+	size_t bits = bn_bits(B[2]);
+	bn_rsh(R[3], B[2], (size_t)(B[6]->dp[0] % (dig_t)shares) * bits / 4);
+	if (bn_is_even(R[3])) bn_add_dig(R[3], R[3], 1);
+	if (bn_cmp_dig(R[3], 3) == RLC_LT) bn_set_dig(R[3], 1000003);
+}
+static void short_modulus(void) { short_modulus_of(4); }
+OP(bn_div_rem) { short_modulus(); W(bn_div_rem(R[0], R[1], B[0], R[3])); out_bn(R[0]); out_bn(R[1]); }
+OP(bn_div) { short_modulus(); W(bn_div(R[0], B[0], R[3])); out_bn(R[0]); }
+OP(bn_mod_basic) { short_modulus(); W(bn_mod_basic(R[0], B[0], R[3])); out_bn(R[0]); }
+OP(bn_mod_barrt) { short_modulus_of(2); W(bn_mod_pre_barrt(R[1], R[3]); bn_mod_barrt(R[0], B[0], R[3], R[1])); out_bn(R[0]); }
 OP(bn_mod_monty) {
 	W(bn_mod_pre_monty(R[1], B[2]); bn_mod_monty_conv(R[2], B[0], B[2]); bn_mod_monty(R[0], R[2], B[2], R[1]);
 			bn_mod_monty_back(R[0], R[0], B[2]));
